@@ -1048,7 +1048,9 @@ func L2Security(thorough bool) []MethodCase {
 			} else {
 				msec = &Security{None: true}
 			}
-			m := secMethod(name, usedSchemes(base, msec), false)
+			// the payload carries the credentials of the EFFECTIVE requirement only (goa rejects
+			// credential attributes no effective scheme uses)
+			m := secMethod(name, usedSchemes(msec), false)
 			m.Security = msec
 			m.Feat["level"], m.Feat["reqs"], m.Feat["override"] = level, desc(base), ov+":"+desc(msec)
 			mc := MethodCase{M: m, Schemes: SecSchemes(), Own: true}
@@ -1064,7 +1066,7 @@ func L2Security(thorough bool) []MethodCase {
 	{
 		name := fmt.Sprintf("m%d", n)
 		n++
-		m := secMethod(name, usedSchemes(base, other), false)
+		m := secMethod(name, usedSchemes(other), false)
 		m.Feat["level"], m.Feat["reqs"], m.Feat["override"] = "api+service", desc(other), "service-over-api"
 		out = append(out, MethodCase{M: m, Schemes: SecSchemes(), Own: true, APISecurity: base, SvcSecurity: other})
 	}
